@@ -103,7 +103,7 @@ def main(ck):
     ck.cov["trusted_base"] = ["Coq 8.16.1 kernel + vm_compute (cases evaluation, Example)", "no axioms (Print Assumptions: closed)",
                               "Go harness cmd/c14, python driver props/C14/run.py"]
     ck.coq_audit(["C14"])
-    ok = ck.coq_build(["C14/Proofs.vo", "C14/Inv.vo", "C14/Corr.vo", "C14/XCorr.vo", "C14/XProofs.vo", "C14/XInv.vo", "C14/XNode.vo", "C14/XAgree.vo"])
+    ok = ck.coq_build(["C14/Proofs.vo", "C14/Inv.vo", "C14/Corr.vo", "C14/XCorr.vo", "C14/XProofs.vo", "C14/XInv.vo", "C14/XNode.vo", "C14/XAgree.vo", "C14/XAgreeIx.vo", "C14/LK.vo"])
     if ok:
         ck.coq_props(["C14/Props.v", "C14/Refuted.v"])
         if ck.tier == "thorough":
@@ -176,6 +176,7 @@ def main(ck):
 
     run_ix(ck, binp, ok)
     run_wa(ck, binp, ok)
+    run_lk(ck, binp, ok)
     if ck.tier == "thorough" or os.environ.get("C14_BB"):
         run_bb(ck)
 
@@ -396,3 +397,80 @@ def run_bb(ck):
         else:
             ck.violation({"kind": "direct-oracle", "mode": "bb", "what": msg, "facts": fa, "log": r["log"],
                           "dirs_before": r["dirs_before"], "dirs_after": r["dirs_after"]})
+
+
+# ---------------------------------------------------------------------------------------------
+# LogKeeper flavour: real metaclient.Client.GetExpiredShards/GetExpiredIndexes + retention.Service.HandleSharedStorage
+
+def lk_ev(e):
+    k = e["kind"]
+    if k == "add":
+        return "LAdd %s %s %s" % (coq_z(e["gid"]), coq_z(e["end"]), coq_list([coq_z(x) for x in e["shards"]]))
+    if k == "alter":
+        return "LAlter %s" % coq_z(e["d"])
+    if k == "tick":
+        return "LTick %s" % coq_z(e["now"])
+    if k == "recall":
+        return "LRecall"
+    raise ValueError(k)
+
+
+def lk_obs(o):
+    gs = coq_list(["(%s, %s, %s, %s)" % (coq_z(g["id"]), coq_z(g["end"]), "None" if g["mark"] < 0 else "(Some %s)" % coq_z(g["mark"]),
+                                         coq_list(["(%s, %s)" % (coq_z(x[0]), coq_bool(x[1] == 1)) for x in g["shards"]]))
+                   for g in o["groups"]])
+    return "(%s, %s)" % (gs, coq_list([coq_z(x) for x in o["del"]]))
+
+
+def lk_case(t):
+    return "(%s, %s, (%s : list lobs))" % (coq_z(t["d0"]), coq_list([lk_ev(e) for e in t["events"]]), coq_list([lk_obs(o) for o in t["obs"]]))
+
+
+def run_lk(ck, binp, coq_ok):
+    import re
+    n = 200 if ck.tier == "quick" else 3000
+    rc, out = ck.run([binp, "lk", str(n)], timeout=1800)
+    traces = [json.loads(l) for l in out.splitlines() if l.startswith('{"mode":"lk"')]
+    if rc != 0 or len(traces) != n:
+        ck.broken.append("harness c14 lk failed rc=%d traces=%d: %s" % (rc, len(traces), out[-500:]))
+        return
+    # permanent canary: corrupted copies of the first trace that has an observation with a group, appended after the real ones
+    NCAN = 5
+    src = next((t for t in traces if t["obs"] and t["obs"][0]["groups"]), None)
+    cases = [lk_case(t) for t in traces]
+    if src is not None:
+        bad = json.loads(json.dumps(src))
+        bad["obs"][0]["groups"][0]["end"] += 1
+        cases += [lk_case(bad)] * NCAN
+    shard = 100
+    files = [("lkcases%d" % (i // shard),
+              "From Coq Require Import ZArith List Bool. From OG Require Import C14.Model C14.LK.\nImport ListNotations. Open Scope Z_scope.\n"
+              "Definition cases : list lkcase := [\n%s\n].\nDefinition V := Eval vm_compute in lk_verdicts cases.\nPrint V.\n"
+              % ";\n".join(cases[i:i + shard])) for i in range(0, len(cases), shard)]
+    verd = []
+    if coq_ok:
+        for idx, (rc2, o) in enumerate(ck.coq_eval_many(files)):
+            m = re.search(r"V\s*=\s*\[(.*?)\]\s*:\s*list nat", o, re.S) if rc2 == 0 else None
+            want = len(cases[idx * shard:(idx + 1) * shard])
+            nums = [int(x) for x in re.findall(r"\d+", re.sub(r"%\w+", "", m.group(1)))] if m else None
+            if nums is None or len(nums) != want:
+                ck.broken.append("model evaluation (lk) failed or unreadable on shard %d: %s" % (idx, o[-300:]))
+                verd += [None] * want
+            else:
+                verd += nums
+        if src is not None and any(v == 0 for v in verd[len(traces):] if v is not None):
+            ck.broken.append("C14 canary: a corrupted case was not reported by the model evaluation (logkeeper traces)")
+    mism = [(i, v - 1) for i, v in enumerate(verd[:len(traces)]) if v]
+    oracle_fail = [(i, t) for i, t in enumerate(traces) if t["oracle"]]
+    for i, t in oracle_fail[:3]:
+        ck.violation({"kind": "direct-oracle", "mode": "lk", "what": t["oracle"], "case": i, "trace": t})
+    if mism and not oracle_fail:
+        i, k = mism[0]
+        ck.broken.append("correspondence C14 (logkeeper) model/implementation differs on case %d at event %d" % (i, k))
+        ck.nofail_detail = {"kind": "correspondence-lk", "case": i, "event_index": k, "trace": traces[i]}
+    ck.cov["evaluations"] += len(traces)
+    ck.cov["distinct_nontrivial"] += len({json.dumps(t["events"]) for t in traces if t["nontrivial"]})
+    ck.cov["traces_validated_against_impl"] += len(traces) - len(mism) if coq_ok else 0
+    ck.cov["lk"] = {"traces": len(traces), "traces_with_physical_removal": sum(1 for t in traces if t["nontrivial"]),
+                    "object_store_paths_removed": sum(t["paths"] for t in traces)}
+    ck.cov["rule"] += " || lk: add/alter/recall/tick traces of the two-phase deletion; non-trivial = a pass physically removed a shard"
